@@ -561,12 +561,69 @@ def replay_main(mod, path):
     return 0
 
 
+def collect_main(argv):
+    """Calibration mode (not a registered command): run the oracle of a run_given layer over N
+    generated cases with findings switched off or on, never raise, print the bucket table."""
+    setup_paths()
+    pid, n = argv[0], int(argv[1])
+    strict = "--strict" in argv
+    verbose = "-v" in argv
+    tier = "quick"
+    mod = importlib.import_module("checks." + pid)
+    ctx = Ctx(mod, tier, int(os.environ.get("VERIF_SEED", "1")), 0, 1, time.time() + 36000)
+    if hasattr(mod, "init_worker"):
+        mod.init_worker(ctx)
+    set_strict(strict)
+    import hypothesis
+    from hypothesis import HealthCheck, Phase, given, settings
+
+    buckets, examples, known, labels = collections.Counter(), {}, collections.Counter(), collections.Counter()
+    nt = [0, 0]
+    strat, oracle = mod.COLLECT(ctx) if hasattr(mod, "COLLECT") else (mod.strategy(ctx), mod.oracle)
+
+    @hypothesis.seed(ctx.derived_seed("collect"))
+    @settings(max_examples=n, database=None, deadline=None, suppress_health_check=list(HealthCheck), phases=[Phase.generate])
+    @given(strat)
+    def t(case):
+        try:
+            with watchdog():
+                r = oracle(case)
+        except CaseTimeout:
+            buckets["TIMEOUT"] += 1
+            examples.setdefault("TIMEOUT", (case, ""))
+            return
+        nt[0] += 1
+        nt[1] += bool(r.nontrivial)
+        for k in r.known:
+            known[k] += 1
+        for l in r.labels:
+            labels[l] += 1
+        for c, d in r.failures:
+            buckets[c] += 1
+            if c not in examples or len(canon(case)) < len(canon(examples[c][0])):
+                examples[c] = (case, d)
+
+    t()
+    print("cases", nt[0], "nontrivial", nt[1], "known", dict(known))
+    for k, c in sorted(buckets.items(), key=lambda kv: -kv[1]):
+        print("%6d  %s" % (c, k))
+        if verbose:
+            print("        e.g.", canon(examples[k][0])[:700])
+            print("        ->", examples[k][1][:500])
+    if "--labels" in argv:
+        for k, c in sorted(labels.items()):
+            print("   label %-30s %d" % (k, c))
+    return 0
+
+
 def main(a):
     try:
         if a and a[0] == "--worker":
             return worker_main(a[1:])
         if a and a[0] == "--witness":
             return witness_main(a[1:])
+        if a and a[0] == "--collect":
+            return collect_main(a[1:])
         rp = None
         if "--replay" in a:
             i = a.index("--replay")
